@@ -2,9 +2,25 @@
  * the ENVIRONMENT of a TLC behaviour of FourCounter.tla (workload changes, application messages, which in-flight
  * control message is delivered next) into the real module functions.
  *
- *   fc_replay <behaviours.txt> <trace.ndjson> <meta.ndjson>
+ *   fc_replay <behaviours.txt> <trace.ndjson> <meta.ndjson>                                      (line mode)
+ *   fc_replay -g <graph.txt> <trace.ndjson> <meta.ndjson> <seed> <sample per 100000> <max flagged>   (graph mode)
  *
  * behaviours.txt, one behaviour per line:  "N;Ready 2 -1;ActionDone 2 -1;MsgUp 2 0;SendApp 1 2;..."
+ *
+ * graph.txt = the complete state graph of the bounded FourCounter model (TLC -dump), written by checks/C11.py:
+ *     G <N> <nnodes> <nedges> <init>
+ *     n <observable state of node i, as text>          (nnodes lines)
+ *     e <src> <dst> <op> <a> <b>                       (nedges lines)
+ * Graph mode = transition coverage: for EVERY transition (u, a, v) of the graph the harness puts the virtual ranks in
+ * the state reached by the shortest path from Init to u (depth-first walk over the breadth-first spanning tree; the
+ * state of the virtual ranks at u - the monitors of the module, byte for byte, the counters, the channels - is saved
+ * when u is first reached and restored for every transition leaving u, which is the same as re-executing the
+ * deterministic prefix), executes a on the real module, compares the observable state of the real ranks (taskpool_state,
+ * callbacks, work counters, every control message in every channel with its payload, parked messages) with the
+ * observable state of v, then drives the system to quiescence and requires every rank to terminate exactly once.
+ * A mismatch does not stop the walk (the transitions below it are still executed when the environment allows them).
+ * Executions that are flagged (mismatch, termination callback in a non-quiet system, not terminated at the end) and a
+ * seeded sample of the others are written to the trace file for validation by FourCounterTrace.tla.
  *
  * Virtual ranks: N copies of the parsec_context_t (my_rank = r, nb_nodes = N), N taskpools sharing one taskpool_id,
  * parsec_ce.send_am replaced by a recording stub (one FIFO per (src,dst) pair), delivery through the real
@@ -16,10 +32,13 @@
  * bounded number of deliveries: every rank must have declared termination by then (otherwise a "stuck" event).
  *
  * trace.ndjson (validated by FourCounterTrace.tla): cfg / ready / spawn / taskdone / actiondone / sendapp / recvstart /
- * recvend / deliver / term (logged from the termination callback) / end | stuck.  Every environment event is logged
- * BEFORE the module function is called.
- * meta.ndjson: per behaviour {"diverged":0|1,"obs":[[state of every rank after step i],..],"cbs":[..],"ctl":[..]}.
+ * recvend / recvendtask / deliver / term (logged from the termination callback) / end | stuck.  Every environment event
+ * is logged BEFORE the module function is called.
+ * meta.ndjson, line mode: per behaviour {"obs":[[state of every rank after step i],..],"fin":[..],"diverged":0|1,"ctl":[..]};
+ * graph mode: one line per written execution {"edge":e,"path":[edge indices],"mismatch":..,"illegal":..,"badterm":..,
+ * "stuck":..,"sampled":..,"real":"...","model":"..."} and a last line {"summary":1,...}.
  */
+
 #include "parsec/parsec_config.h"
 #include "parsec/runtime.h"
 #include "parsec/parsec_internal.h"
@@ -33,6 +52,8 @@
 #include <stdarg.h>
 #include <stdlib.h>
 #include <string.h>
+#include <stdint.h>
+#include <malloc.h>
 
 typedef struct { unsigned char b[PARSEC_TERMDET_FOURCOUNTER_MAX_MSG_SIZE]; int size; } cmsg_t;
 typedef struct { cmsg_t *q; int head, n, cap; } chan_t;
@@ -49,10 +70,23 @@ static int cur_rank = -1;
 static FILE *out, *meta;
 static int first_obs, first_ctl;
 static char *ctlbuf; static size_t ctllen, ctlcap;
+static int bad_term;                    /* harness-side oracle: termination callbacks fired in a non-quiet system */
+
+/* ---- event log: straight to the trace file (line mode) or into a buffer that can be truncated (graph mode) ---------------- */
+static int ev_buffered;
+static char *evb; static size_t evlen, evcap;
+static void ev(const char *fmt, ...)
+{
+    va_list ap;
+    if( !ev_buffered ) { va_start(ap, fmt); vfprintf(out, fmt, ap); va_end(ap); return; }
+    if( evlen + 128 > evcap ) { evcap = 2 * evcap + 4096; evb = realloc(evb, evcap); }
+    va_start(ap, fmt); evlen += vsnprintf(evb + evlen, 128, fmt, ap); va_end(ap);
+}
 
 static void ctl_note(const char *fmt, ...)
 {
     va_list ap; char tmp[160]; int n;
+    if( ev_buffered ) return;
     va_start(ap, fmt); n = vsnprintf(tmp, sizeof(tmp), fmt, ap); va_end(ap);
     if( ctllen + n + 2 > ctlcap ) { ctlcap = 2 * (ctlcap + n + 64); ctlbuf = realloc(ctlbuf, ctlcap); }
     if( !first_ctl ) ctlbuf[ctllen++] = ',';
@@ -71,7 +105,7 @@ static int stub_send_am(parsec_comm_engine_t *ce, parsec_ce_tag_t tag, int remot
         ctl_note("[%d,%d,\"DOWN\",%u,0]", cur_rank, remote, down->result);
     if( tag != PARSEC_TERMDET_FOURCOUNTER_MSG_TAG || remote < 0 || remote >= N || cur_rank < 0 ||
         size > PARSEC_TERMDET_FOURCOUNTER_MAX_MSG_SIZE ) {
-        fprintf(out, "{\"e\":\"badsend\",\"src\":%d,\"dst\":%d}\n", cur_rank, remote);
+        ev("{\"e\":\"badsend\",\"src\":%d,\"dst\":%d}\n", cur_rank, remote);
         return 1;
     }
     chan_t *c = &chan[cur_rank * N + remote];
@@ -80,11 +114,18 @@ static int stub_send_am(parsec_comm_engine_t *ce, parsec_ce_tag_t tag, int remot
     return 1;
 }
 
+static int env_quiet(void)
+{
+    for( int r = 0; r < N; r++ ) if( tasks[r] || pa[r] || flight[r] || started[r] ) return 0;
+    return 1;
+}
+
 static void term_cb(parsec_taskpool_t *tp)
 {
     int r = tp->context->my_rank;
     cbcount[r]++;
-    fprintf(out, "{\"e\":\"term\",\"r\":%d}\n", r);
+    if( !env_quiet() || cbcount[r] > 1 ) bad_term++;
+    ev("{\"e\":\"term\",\"r\":%d}\n", r);
 }
 
 static void dly_load(int r)
@@ -112,6 +153,7 @@ static void setup(int n)
     flight = calloc(N, sizeof(int)); started = calloc(N, sizeof(int)); ready = calloc(N, sizeof(int));
     chan = calloc(N * N, sizeof(chan_t));
     dly = calloc(N, sizeof(*dly)); ndly = calloc(N, sizeof(int));
+    bad_term = 0;
     for( int r = 0; r < N; r++ ) {
         memcpy(&vctx[r], real_ctx, sizeof(parsec_context_t));
         vctx[r].my_rank = r; vctx[r].nb_nodes = N;
@@ -150,7 +192,7 @@ static void observe(void)
 /* ---- environment actions: log first, then call the real module --------------------------------------------------------- */
 static void act_ready(int r)
 {
-    fprintf(out, "{\"e\":\"ready\",\"r\":%d}\n", r);
+    ev("{\"e\":\"ready\",\"r\":%d}\n", r);
     cur_rank = r; ready[r] = 1;
     parsec_taskpool_register(&vtp[r]);
     dly_load(r);
@@ -160,28 +202,28 @@ static void act_ready(int r)
 }
 static void act_spawn(int r)
 {
-    fprintf(out, "{\"e\":\"spawn\",\"r\":%d}\n", r);
+    ev("{\"e\":\"spawn\",\"r\":%d}\n", r);
     cur_rank = r; tasks[r]++;
     MOD(r)->taskpool_addto_nb_tasks(&vtp[r], 1);
     cur_rank = -1;
 }
 static void act_taskdone(int r)
 {
-    fprintf(out, "{\"e\":\"taskdone\",\"r\":%d}\n", r);
+    ev("{\"e\":\"taskdone\",\"r\":%d}\n", r);
     cur_rank = r; tasks[r]--;
     MOD(r)->taskpool_addto_nb_tasks(&vtp[r], -1);
     cur_rank = -1;
 }
 static void act_actiondone(int r)
 {
-    fprintf(out, "{\"e\":\"actiondone\",\"r\":%d}\n", r);
+    ev("{\"e\":\"actiondone\",\"r\":%d}\n", r);
     cur_rank = r; pa[r]--;
     MOD(r)->taskpool_addto_runtime_actions(&vtp[r], -1);
     cur_rank = -1;
 }
 static void act_sendapp(int r, int q)
 {
-    fprintf(out, "{\"e\":\"sendapp\",\"r\":%d,\"q\":%d}\n", r, q);
+    ev("{\"e\":\"sendapp\",\"r\":%d,\"q\":%d}\n", r, q);
     cur_rank = r;
     flight[q]++;
     MOD(r)->outgoing_message_start(&vtp[r], q, NULL);
@@ -190,16 +232,24 @@ static void act_sendapp(int r, int q)
 static void act_recvstart(int q)
 {
     int src = (q + 1) % N;             /* (the detector ignores the source of an application message) */
-    fprintf(out, "{\"e\":\"recvstart\",\"q\":%d}\n", q);
+    ev("{\"e\":\"recvstart\",\"q\":%d}\n", q);
     cur_rank = q; flight[q]--; started[q]++;
     MOD(q)->incoming_message_start(&vtp[q], src, NULL, NULL, 0, NULL);
     cur_rank = -1;
 }
 static void act_recvend(int q)
 {
-    fprintf(out, "{\"e\":\"recvend\",\"q\":%d}\n", q);
+    ev("{\"e\":\"recvend\",\"q\":%d}\n", q);
     cur_rank = q; started[q]--; pa[q]++;
     MOD(q)->taskpool_addto_runtime_actions(&vtp[q], 1);      /* remote_dep_inc_flying_messages */
+    MOD(q)->incoming_message_end(&vtp[q], NULL);
+    cur_rank = -1;
+}
+static void act_recvendtask(int q)
+{
+    ev("{\"e\":\"recvendtask\",\"q\":%d}\n", q);
+    cur_rank = q; started[q]--; tasks[q]++;
+    MOD(q)->taskpool_addto_nb_tasks(&vtp[q], 1);             /* release_deps counts the task the message released */
     MOD(q)->incoming_message_end(&vtp[q], NULL);
     cur_rank = -1;
 }
@@ -210,7 +260,7 @@ static int act_deliver(int p, int q)
     if( c->head >= c->n ) return -1;
     cmsg_t m = c->q[c->head++];
     int type = (int)((parsec_termdet_fourcounter_msg_up_t*)m.b)->msg_type;
-    fprintf(out, "{\"e\":\"deliver\",\"p\":%d,\"q\":%d}\n", p, q);
+    ev("{\"e\":\"deliver\",\"p\":%d,\"q\":%d}\n", p, q);
     cur_rank = q;
     parsec_taskpool_register(&vtp[q]);
     dly_load(q);
@@ -218,6 +268,42 @@ static int act_deliver(int p, int q)
     dly_store(q);
     cur_rank = -1;
     return type;
+}
+static int head_type(int p, int q)
+{
+    chan_t *c = &chan[p * N + q];
+    if( p < 0 || q < 0 || p >= N || q >= N || c->head >= c->n ) return -1;
+    return (int)((parsec_termdet_fourcounter_msg_up_t*)c->q[c->head].b)->msg_type;
+}
+
+enum { OP_READY, OP_SPAWN, OP_TASKDONE, OP_ACTIONDONE, OP_SENDAPP, OP_RECVSTART, OP_RECVEND, OP_RECVENDTASK, OP_MSGUP,
+       OP_MSGDOWN, OP_MSGDELAY, OP_NB };
+static const char *op_names[OP_NB] = { "Ready", "Spawn", "TaskDone", "ActionDone", "SendApp", "RecvStart", "RecvEnd",
+                                       "RecvEndTask", "MsgUp", "MsgDown", "MsgDelay" };
+static int op_code(const char *s)
+{
+    for( int i = 0; i < OP_NB; i++ ) if( !strcmp(s, op_names[i]) ) return i;
+    return -1;
+}
+/* one environment action of the model; returns 0 when it is not legal in the REAL environment state (the model said it
+ * is enabled: only possible after the real module and the model disagreed) */
+static int step(int op, int a, int b)
+{
+    if( a < 0 || a >= N ) return 0;
+    switch( op ) {
+    case OP_READY:       if( ready[a] ) return 0; act_ready(a); return 1;
+    case OP_SPAWN:       if( !ready[a] || (tasks[a] + pa[a] <= 0 && started[a] <= 0) ) return 0; act_spawn(a); return 1;
+    case OP_TASKDONE:    if( !ready[a] || tasks[a] <= 0 ) return 0; act_taskdone(a); return 1;
+    case OP_ACTIONDONE:  if( !ready[a] || pa[a] <= 0 ) return 0; act_actiondone(a); return 1;
+    case OP_SENDAPP:     if( !ready[a] || tasks[a] <= 0 || b < 0 || b >= N ) return 0; act_sendapp(a, b); return 1;
+    case OP_RECVSTART:   if( !ready[a] || flight[a] <= 0 ) return 0; act_recvstart(a); return 1;
+    case OP_RECVEND:     if( started[a] <= 0 ) return 0; act_recvend(a); return 1;
+    case OP_RECVENDTASK: if( started[a] <= 0 ) return 0; act_recvendtask(a); return 1;
+    case OP_MSGUP:       if( b < 0 || b >= N || !ready[b] || 1 != head_type(a, b) ) return 0; act_deliver(a, b); return 1;
+    case OP_MSGDOWN:     if( b < 0 || b >= N || !ready[b] || 0 != head_type(a, b) ) return 0; act_deliver(a, b); return 1;
+    case OP_MSGDELAY:    if( b < 0 || b >= N || ready[b] || head_type(a, b) < 0 ) return 0; act_deliver(a, b); return 1;
+    }
+    return 0;
 }
 
 static int all_terminated(void)
@@ -232,35 +318,10 @@ static int ctl_pending(void)
     return s;
 }
 
-static int run_behaviour(char *line)
+/* drive to quiescence, then fair bounded delivery of the control messages; returns 1 when some rank is left unterminated */
+static int drive(int line_mode)
 {
-    char *save = NULL, *tok = strtok_r(line, ";\n", &save);
-    int n = tok ? atoi(tok) : 0, diverged = 0;
-    if( n < 1 || n > 64 ) return -1;
-    setup(n);
-    first_obs = 1; first_ctl = 1; ctllen = 0; if( ctlbuf ) ctlbuf[0] = 0;
-    fprintf(out, "{\"e\":\"cfg\",\"n\":%d}\n", n);
-    fprintf(meta, "{\"obs\":[");
-    for( tok = strtok_r(NULL, ";\n", &save); tok && !diverged; tok = strtok_r(NULL, ";\n", &save) ) {
-        char op[24]; int a = -1, b = -1;
-        if( sscanf(tok, "%23s %d %d", op, &a, &b) < 2 ) continue;
-        /* legality in the real environment state (the model said the action is enabled) */
-        if( !strcmp(op, "Ready") )            { if( ready[a] ) diverged = 1; else act_ready(a); }
-        else if( !strcmp(op, "Spawn") )       { if( !ready[a] || tasks[a] + pa[a] <= 0 ) diverged = 1; else act_spawn(a); }
-        else if( !strcmp(op, "TaskDone") )    { if( !ready[a] || tasks[a] <= 0 ) diverged = 1; else act_taskdone(a); }
-        else if( !strcmp(op, "ActionDone") )  { if( !ready[a] || pa[a] <= 0 ) diverged = 1; else act_actiondone(a); }
-        else if( !strcmp(op, "SendApp") )     { if( !ready[a] || tasks[a] <= 0 ) diverged = 1; else act_sendapp(a, b); }
-        else if( !strcmp(op, "RecvStart") )   { if( !ready[a] || flight[a] <= 0 ) diverged = 1; else act_recvstart(a); }
-        else if( !strcmp(op, "RecvEnd") )     { if( started[a] <= 0 ) diverged = 1; else act_recvend(a); }
-        else if( !strcmp(op, "MsgUp") )       { if( !ready[b] || 1 != act_deliver(a, b) ) diverged = 1; }
-        else if( !strcmp(op, "MsgDown") )     { if( !ready[b] || 0 != act_deliver(a, b) ) diverged = 1; }
-        else if( !strcmp(op, "MsgDelay") )    { if( ready[b] || act_deliver(a, b) < 0 ) diverged = 1; }
-        else diverged = 1;
-        observe();
-    }
-    fprintf(meta, "],\"fin\":[");
-    first_obs = 1;
-    /* ---- drive to quiescence ---------------------------------------------------------------------------------------------- */
+    int stuck = 0;
     for( int r = 0; r < N; r++ ) if( !ready[r] ) act_ready(r);
     for( int again = 1; again; ) {
         again = 0;
@@ -271,8 +332,7 @@ static int run_behaviour(char *line)
             while( pa[q] > 0 ) { act_actiondone(q); again = 1; }
         }
     }
-    observe();
-    /* ---- fair delivery of the control messages, bounded ------------------------------------------------------------------------ */
+    if( line_mode ) observe();
     {
         int budget = 40 * N * 2 + 40, progress = 1;
         while( !all_terminated() && budget > 0 && progress ) {
@@ -283,35 +343,262 @@ static int run_behaviour(char *line)
         }
         while( ctl_pending() > 0 && budget-- > 0 )          /* leftovers (DOWN(true) to the last leaves) */
             for( int i = 0; i < N * N; i++ ) if( chan[i].head < chan[i].n ) act_deliver(i / N, i % N);
-        observe();
-        if( !all_terminated() || ctl_pending() > 0 )
-            fprintf(out, "{\"e\":\"stuck\",\"pending_ctl\":%d}\n", ctl_pending());
+        if( line_mode ) observe();
+        if( !all_terminated() || ctl_pending() > 0 ) {
+            ev("{\"e\":\"stuck\",\"pending_ctl\":%d}\n", ctl_pending());
+            stuck = 1;
+        }
     }
-    fprintf(out, "{\"e\":\"end\"}\n");
-    fprintf(meta, "],\"diverged\":%d,\"ctl\":[%s]}\n", diverged, ctlbuf ? ctlbuf : "");
+    ev("{\"e\":\"end\"}\n");
+    for( int r = 0; r < N; r++ ) if( cbcount[r] != 1 ) stuck = 1;
+    return stuck;
+}
+
+static int run_behaviour(char *line)
+{
+    char *save = NULL, *tok = strtok_r(line, ";\n", &save);
+    int n = tok ? atoi(tok) : 0, diverged = 0;
+    if( n < 1 || n > 64 ) return -1;
+    setup(n);
+    first_obs = 1; first_ctl = 1; ctllen = 0; if( ctlbuf ) ctlbuf[0] = 0;
+    ev("{\"e\":\"cfg\",\"n\":%d}\n", n);
+    fprintf(meta, "{\"obs\":[");
+    for( tok = strtok_r(NULL, ";\n", &save); tok && !diverged; tok = strtok_r(NULL, ";\n", &save) ) {
+        char op[24]; int a = -1, b = -1;
+        if( sscanf(tok, "%23s %d %d", op, &a, &b) < 2 ) continue;
+        /* legality in the real environment state (the model said the action is enabled) */
+        if( !step(op_code(op), a, b) ) diverged = 1;
+        observe();
+    }
+    fprintf(meta, "],\"fin\":[");
+    first_obs = 1;
+    int stuck = drive(1);
+    fprintf(meta, "],\"diverged\":%d,\"badterm\":%d,\"stuck\":%d,\"ctl\":[%s]}\n", diverged, bad_term, stuck, ctlbuf ? ctlbuf : "");
     teardown();
     return diverged;
 }
 
+/* ==== graph mode ================================================================================================================ */
+#define MAXN 8
+typedef struct { int src, dst, op, a, b; } gedge_t;
+typedef struct {
+    unsigned char *mon[MAXN]; int32_t nbt[MAXN], nbp[MAXN];
+    int cb[MAXN], tasks[MAXN], pa[MAXN], flight[MAXN], started[MAXN], ready[MAXN], ndly[MAXN];
+    parsec_list_item_t **dly[MAXN]; int dlycap[MAXN];
+    int chead[MAXN * MAXN], cn[MAXN * MAXN];
+    size_t evlen; int bad_term;
+} snap_t;
+static size_t monsz[MAXN];
+static int g_nn, g_ne, g_init;
+static char **g_obs; static gedge_t *g_e; static int *g_first, *g_parent_edge;      /* CSR adjacency: edges sorted by src */
+static snap_t *snaps; static int nsnaps;
+static long st_edges, st_mismatch, st_illegal, st_badexec, st_emitted, st_steps, st_nodes, st_capped;
+static uint64_t g_seed; static long g_sample, g_maxflag; static long n_flag_bad, n_flag_mis;
+static int *pathstk; static int pathlen;
+static int first_exec = 1;
+
+static void snap_take(snap_t *s)
+{
+    for( int r = 0; r < N; r++ ) {
+        if( NULL == s->mon[r] ) s->mon[r] = malloc(monsz[r]);
+        memcpy(s->mon[r], vtp[r].tdm.monitor, monsz[r]);
+        s->nbt[r] = vtp[r].nb_tasks; s->nbp[r] = vtp[r].nb_pending_actions;
+        s->cb[r] = cbcount[r]; s->tasks[r] = tasks[r]; s->pa[r] = pa[r]; s->flight[r] = flight[r];
+        s->started[r] = started[r]; s->ready[r] = ready[r]; s->ndly[r] = ndly[r];
+        if( ndly[r] > s->dlycap[r] ) { s->dlycap[r] = ndly[r] + 4; s->dly[r] = realloc(s->dly[r], s->dlycap[r] * sizeof(void*)); }
+        if( ndly[r] ) memcpy(s->dly[r], dly[r], ndly[r] * sizeof(void*));
+    }
+    for( int i = 0; i < N * N; i++ ) { s->chead[i] = chan[i].head; s->cn[i] = chan[i].n; }
+    s->evlen = evlen; s->bad_term = bad_term;
+}
+static void snap_restore(const snap_t *s)
+{
+    for( int r = 0; r < N; r++ ) {
+        memcpy(vtp[r].tdm.monitor, s->mon[r], monsz[r]);
+        vtp[r].nb_tasks = s->nbt[r]; vtp[r].nb_pending_actions = s->nbp[r];
+        cbcount[r] = s->cb[r]; tasks[r] = s->tasks[r]; pa[r] = s->pa[r]; flight[r] = s->flight[r];
+        started[r] = s->started[r]; ready[r] = s->ready[r];
+        if( s->ndly[r] ) { dly[r] = realloc(dly[r], s->ndly[r] * sizeof(void*)); memcpy(dly[r], s->dly[r], s->ndly[r] * sizeof(void*)); }
+        ndly[r] = s->ndly[r];        /* (items parked or consumed in the abandoned branch are not freed by the module: still valid) */
+    }
+    for( int i = 0; i < N * N; i++ ) { chan[i].head = s->chead[i]; chan[i].n = s->cn[i]; }
+    evlen = s->evlen; bad_term = s->bad_term;
+}
+
+/* the observable state of the real virtual ranks, in the text format of checks/C11.py (obs_of_label) */
+static char *real_obs(char *buf, size_t cap)
+{
+    size_t k = 0;
+#define PUT(...) k += snprintf(buf + k, cap - k, __VA_ARGS__)
+    for( int r = 0; r < N; r++ ) PUT("%s%d", r ? "," : "", (int)MOD(r)->taskpool_state(&vtp[r]));
+    PUT("|"); for( int r = 0; r < N; r++ ) PUT("%s%d", r ? "," : "", cbcount[r]);
+    PUT("|"); for( int r = 0; r < N; r++ ) PUT("%s%d", r ? "," : "", (int)vtp[r].nb_tasks);
+    PUT("|"); for( int r = 0; r < N; r++ ) PUT("%s%d", r ? "," : "", (int)vtp[r].nb_pending_actions);
+    PUT("|"); for( int r = 0; r < N; r++ ) PUT("%s%d", r ? "," : "", flight[r]);
+    PUT("|"); for( int r = 0; r < N; r++ ) PUT("%s%d", r ? "," : "", started[r]);
+    PUT("|"); for( int r = 0; r < N; r++ ) PUT("%s%d", r ? "," : "", ndly[r]);
+    PUT("|");
+    for( int i = 0; i < N * N; i++ ) {
+        chan_t *c = &chan[i];
+        if( c->head >= c->n ) continue;
+        PUT("%d>%d:", i / N, i % N);
+        for( int j = c->head; j < c->n && k + 64 < cap; j++ ) {
+            parsec_termdet_fourcounter_msg_up_t *up = (parsec_termdet_fourcounter_msg_up_t*)c->q[j].b;
+            parsec_termdet_fourcounter_msg_down_t *down = (parsec_termdet_fourcounter_msg_down_t*)c->q[j].b;
+            if( up->msg_type == PARSEC_TERMDET_FOURCOUNTER_MSG_TYPE_UP ) PUT("%sU%u.%u", j > c->head ? "," : "", up->nb_sent, up->nb_received);
+            else PUT("%sD%u", j > c->head ? "," : "", down->result ? 1u : 0u);
+        }
+        PUT(";");
+    }
+#undef PUT
+    return buf;
+}
+
+static uint64_t mix(uint64_t x)
+{
+    x += 0x9e3779b97f4a7c15ULL; x = (x ^ (x >> 30)) * 0xbf58476d1ce4e5b9ULL; x = (x ^ (x >> 27)) * 0x94d049bb133111ebULL;
+    return x ^ (x >> 31);
+}
+
+static void emit_exec(int e, int mismatch, int illegal, int badterm, int stuck, int sampled, const char *robs)
+{
+    if( !first_exec ) fputs("{\"e\":\"Reset\"}\n", out);
+    first_exec = 0;
+    fwrite(evb, 1, evlen, out);
+    fprintf(meta, "{\"edge\":%d,\"path\":[", e);
+    for( int i = 0; i < pathlen; i++ ) fprintf(meta, "%s%d", i ? "," : "", pathstk[i]);
+    fprintf(meta, "],\"mismatch\":%d,\"illegal\":%d,\"badterm\":%d,\"stuck\":%d,\"sampled\":%d", mismatch, illegal, badterm, stuck, sampled);
+    if( mismatch ) fprintf(meta, ",\"real\":\"%s\",\"model\":\"%s\"", robs, g_obs[g_e[e].dst]);
+    fprintf(meta, "}\n");
+    st_emitted++;
+}
+
+static void visit(int u, int depth)
+{
+    char robs[1024];
+    snap_t *su = &snaps[depth];
+    st_nodes++;
+    snap_take(su);
+    for( int e = g_first[u]; e < g_first[u + 1]; e++ ) {
+        gedge_t *ge = &g_e[e];
+        int tree = (g_parent_edge[ge->dst] == e), mismatch = 0, illegal = 0, stuck, bt, sampled, flagged;
+        snap_restore(su);
+        st_edges++;
+        pathstk[pathlen++] = e;
+        if( !step(ge->op, ge->a, ge->b) ) {
+            illegal = 1; st_illegal++;               /* the subtree below a tree edge is then not reachable on the real ranks */
+        } else {
+            st_steps++;
+            real_obs(robs, sizeof(robs));
+            if( strcmp(robs, g_obs[ge->dst]) ) { mismatch = 1; st_mismatch++; }
+            if( tree ) snap_take(&snaps[depth + 1]);
+        }
+        stuck = drive(0);
+        bt = bad_term;
+        if( stuck || bt ) st_badexec++;
+        flagged = (mismatch || illegal || stuck || bt);
+        sampled = (long)(mix(g_seed * 0x100000001b3ULL + (uint64_t)e) % 100000ULL) < g_sample;
+        if( flagged ) {
+            long *cnt = (stuck || bt) ? &n_flag_bad : &n_flag_mis;
+            if( *cnt < g_maxflag ) { (*cnt)++; emit_exec(e, mismatch, illegal, bt, stuck, sampled, robs); }
+            else st_capped++;
+        } else if( sampled ) emit_exec(e, 0, 0, 0, 0, 1, robs);
+        if( tree && !illegal ) {
+            snap_restore(&snaps[depth + 1]);
+            visit(ge->dst, depth + 1);
+        }
+        pathlen--;
+    }
+}
+
+static int cmp_edge(const void *x, const void *y)
+{
+    const gedge_t *a = x, *b = y;
+    return a->src != b->src ? (a->src < b->src ? -1 : 1) : 0;
+}
+
+static int run_graph(const char *path)
+{
+    FILE *in = fopen(path, "r");
+    char *line = NULL; size_t cap = 0; int n, ni = 0, ei = 0;
+    if( !in || getline(&line, &cap, in) <= 0 || 4 != sscanf(line, "G %d %d %d %d", &n, &g_nn, &g_ne, &g_init) ) return 3;
+    if( n < 1 || n > MAXN || g_nn < 1 || g_init < 0 || g_init >= g_nn ) return 3;
+    g_obs = calloc(g_nn, sizeof(char*)); g_e = calloc(g_ne + 1, sizeof(gedge_t));
+    while( getline(&line, &cap, in) > 0 ) {
+        size_t l = strlen(line);
+        while( l && (line[l-1] == '\n' || line[l-1] == '\r') ) line[--l] = 0;
+        if( line[0] == 'n' && line[1] == ' ' ) { if( ni >= g_nn ) return 3; g_obs[ni++] = strdup(line + 2); }
+        else if( line[0] == 'e' && line[1] == ' ' ) {
+            gedge_t *ge = &g_e[ei];
+            if( ei >= g_ne || 5 != sscanf(line + 2, "%d %d %d %d %d", &ge->src, &ge->dst, &ge->op, &ge->a, &ge->b) ) return 3;
+            if( ge->src < 0 || ge->src >= g_nn || ge->dst < 0 || ge->dst >= g_nn || ge->op < 0 || ge->op >= OP_NB ) return 3;
+            ei++;
+        }
+    }
+    fclose(in);
+    if( ni != g_nn || ei != g_ne ) return 3;
+    /* adjacency (stable order of the file inside one source), breadth-first spanning tree */
+    { gedge_t *tmp = malloc((g_ne + 1) * sizeof(gedge_t)); int *cnt = calloc(g_nn + 2, sizeof(int));
+      for( int e = 0; e < g_ne; e++ ) cnt[g_e[e].src + 1]++;
+      for( int u = 0; u < g_nn; u++ ) cnt[u + 1] += cnt[u];
+      g_first = malloc((g_nn + 1) * sizeof(int)); memcpy(g_first, cnt, (g_nn + 1) * sizeof(int));
+      for( int e = 0; e < g_ne; e++ ) tmp[cnt[g_e[e].src]++] = g_e[e];
+      free(g_e); g_e = tmp; free(cnt); (void)cmp_edge; }
+    g_parent_edge = malloc(g_nn * sizeof(int));
+    { int *queue = malloc(g_nn * sizeof(int)), *dist = malloc(g_nn * sizeof(int)), qh = 0, qt = 0, maxd = 0;
+      for( int u = 0; u < g_nn; u++ ) { g_parent_edge[u] = -1; dist[u] = -1; }
+      queue[qt++] = g_init; dist[g_init] = 0; g_parent_edge[g_init] = -2;
+      while( qh < qt ) {
+          int u = queue[qh++];
+          for( int e = g_first[u]; e < g_first[u + 1]; e++ ) {
+              int v = g_e[e].dst;
+              if( dist[v] < 0 ) { dist[v] = dist[u] + 1; g_parent_edge[v] = e; queue[qt++] = v; if( dist[v] > maxd ) maxd = dist[v]; }
+          }
+      }
+      nsnaps = maxd + 3; snaps = calloc(nsnaps, sizeof(snap_t)); pathstk = malloc((maxd + 3) * sizeof(int));
+      free(queue); free(dist); }
+    ev_buffered = 1; evlen = 0;
+    setup(n);
+    for( int r = 0; r < N; r++ ) monsz[r] = malloc_usable_size(vtp[r].tdm.monitor);
+    ev("{\"e\":\"cfg\",\"n\":%d}\n", n);
+    { char robs[1024];
+      if( strcmp(real_obs(robs, sizeof(robs)), g_obs[g_init]) ) {
+          fprintf(meta, "{\"edge\":-1,\"path\":[],\"mismatch\":1,\"illegal\":0,\"badterm\":0,\"stuck\":0,\"sampled\":0,\"real\":\"%s\",\"model\":\"%s\"}\n",
+                  robs, g_obs[g_init]);
+          st_mismatch++;
+      } }
+    visit(g_init, 0);
+    fprintf(meta, "{\"summary\":1,\"n\":%d,\"nodes\":%d,\"edges\":%d,\"visited_nodes\":%ld,\"executed_edges\":%ld,\"steps\":%ld,"
+                  "\"mismatch\":%ld,\"illegal\":%ld,\"badexec\":%ld,\"emitted\":%ld,\"capped\":%ld}\n",
+            N, g_nn, g_ne, st_nodes, st_edges, st_steps, st_mismatch, st_illegal, st_badexec, st_emitted, st_capped);
+    return 0;
+}
+
 int main(int argc, char **argv)
 {
-    char *line = NULL; size_t cap = 0; long nexec = 0; int prov;
-    FILE *in;
-    if( argc < 4 ) return 3;
+    char *line = NULL; size_t cap = 0; long nexec = 0; int prov, graph = (argc > 1 && !strcmp(argv[1], "-g")), rc = 0;
+    FILE *in = NULL;
+    if( argc < (graph ? 8 : 4) ) return 3;
     MPI_Init_thread(&argc, &argv, MPI_THREAD_MULTIPLE, &prov);
     { int pargc = 1; char *pargv[2] = { argv[0], NULL }; char **pv = pargv;
       real_ctx = parsec_init(1, &pargc, &pv); }
     if( NULL == real_ctx ) return 4;
-    in = fopen(argv[1], "r"); out = fopen(argv[2], "w"); meta = fopen(argv[3], "w");
-    if( !in || !out || !meta ) return 3;
+    if( !graph ) in = fopen(argv[1], "r");
+    out = fopen(argv[2 + graph], "w"); meta = fopen(argv[3 + graph], "w");
+    if( (!graph && !in) || !out || !meta ) return 3;
     { parsec_taskpool_t tmp; memset(&tmp, 0, sizeof(tmp)); shared_id = parsec_taskpool_reserve_id(&tmp); }
     parsec_ce.send_am = stub_send_am;
-    while( getline(&line, &cap, in) > 0 ) {
-        if( line[0] == '\n' || line[0] == '#' ) continue;
-        if( nexec++ ) fprintf(out, "{\"e\":\"Reset\"}\n");
-        run_behaviour(line);
-        fflush(out); fflush(meta);
+    if( graph ) {
+        g_seed = strtoull(argv[5], NULL, 10); g_sample = atol(argv[6]); g_maxflag = atol(argv[7]);
+        rc = run_graph(argv[2]);
+    } else {
+        while( getline(&line, &cap, in) > 0 ) {
+            if( line[0] == '\n' || line[0] == '#' ) continue;
+            if( nexec++ ) fprintf(out, "{\"e\":\"Reset\"}\n");
+            run_behaviour(line);
+            fflush(out); fflush(meta);
+        }
     }
     fclose(out); fclose(meta);
-    _exit(0);
+    _exit(rc);
 }
